@@ -27,6 +27,7 @@ EXPLANATION = (
 EXPLANATION += ' R14.16(c): after leaving an f-string the scan still looks the position up in the next one.'
 EXPLANATION += " R14.17: identifier characters are the interpreter's.  R14.18: an escaped token is skipped one character at a time where the token pattern has multi-character alternatives."
 EXPLANATION += ' R14.16: a whole-text bracket scan over the simplified text (where f-strings survive) reads the string regions; the backward bracket searches of the word finder step over strings through a quote-testing method.'
+EXPLANATION += " R14.19: in the anchored modules and the shared text utilities no source text is cut with str.splitlines() (it breaks at form feed, \x1c-\x1e, \x85, U+2028/9; rope's and the ast's line numbers count \n only)."
 ASSUMPTIONS = ["tokenize's own Comment pattern and _all_string_prefixes() are the oracle for the token language"]
 
 Lin = Dict[str, int]  # linear form: symbol -> coefficient, "" -> constant
@@ -81,7 +82,7 @@ def _norm(l: Lin) -> Lin:
     return {k: v for k, v in l.items() if v != 0}
 
 
-def check(ctx, res) -> None:
+def _check_body(ctx, res) -> None:
     idx = ctx.idx
     folder = fold.get(ctx)
     rc = idx.need_func("rope.base.simplify.real_code")
@@ -781,3 +782,10 @@ def escaped_token_resume_rule(ctx, res, rule: str = "R14.18") -> None:
                 "following lines become one logical line", function=f.qualname)
     # (no skip under a parity test at all is R14.5's finding, not this rule's)
     res.analysed[f"escaped-token skips of the logical-line scanner:{rule}"] = n
+
+
+def check(ctx, res) -> None:
+    _check_body(ctx, res)
+    from .common import line_model_rule
+
+    line_model_rule(ctx, res, "R14.19", ('rope.base.simplify', 'rope.base.codeanalyze', 'rope.base.worder'))
